@@ -179,6 +179,8 @@ func (a *AggregatePlan) prepare(ctx *ExecuteCtx) error {
 		if k == nil && v == nil && err == nil {
 			break
 		}
+		// Field results cached for the previous pair are not valid for this one
+		ctx.ClearRowCache()
 		aggrKey, err := a.getAggrKey(k, v, ctx)
 		if err != nil {
 			return err
@@ -217,6 +219,9 @@ func (a *AggregatePlan) prepareBatch(ctx *ExecuteCtx) error {
 		}
 
 		for i, aggrKey := range aggrKeys {
+			// The aggregate arguments are evaluated pair by pair, field results
+			// cached for the previous pair are not valid for this one
+			ctx.ClearRowCache()
 			row, have := a.aggrMap[aggrKey]
 			if !have {
 				row, err = a.createAggrRow(kvps[i], ctx)
